@@ -28,7 +28,7 @@ def run(tier):
     rep.assumptions = ["a (construct, depth) cell that exceeds the per-case time cap is reported as not covered, never as a failure", "the cost threshold 2.6 sits between n log n (<= 2.2) and quadratic (-> 4) and was fixed before measuring"]
     ex = exes()
     os.environ["VP_CORPUS"] = "\n".join(c for c in corpus() if os.path.getsize(c) < (6000 if tier == "quick" else 40000))
-    core.run_driver(rep, ex["c07-plain"], tier, "plain", hang=20 if tier == "quick" else 120)
+    core.run_driver(rep, ex["c07-plain"], tier, "plain", hang=8 if tier == "quick" else 120)
     core.run_driver(rep, ex["c07cost-cov"], tier, "cov", levels=["cost"], hang=120 if tier == "quick" else 600)
     # hangs are uncovered cells, not failures
     uncovered = []
